@@ -25,7 +25,11 @@ from ..runner import Prop
 PHASES = ["time_step__prepare", "time_step", "time_step__cleanup", "collect_metrics"]
 T0 = (2020, 1, 1)
 HOUR_NS = 3_600_000_000_000
-MAX_ITERS = 400
+MAX_ITERS = 60      # no generated schedule needs more than ~60 iterations; a clock that stops advancing is cut off here
+
+
+class IterationLimit(Exception):
+    pass
 
 
 # ---------------------------------------------------------------------------------------------- script
@@ -133,6 +137,8 @@ def _run(case):
 
         def _phase(self, p, e):
             if p == 0:
+                if self.it >= MAX_ITERS:
+                    raise IterationLimit(f"{MAX_ITERS} main-loop iterations without reaching the stop time")
                 self.states.append(self.snapshot(self._clock_obj))
                 self.it += 1
                 self.iters.append([])
@@ -220,7 +226,7 @@ class C10(Prop):
     n_quick = 170
     n_thorough = 3000
     workers = 8
-    case_timeout = 60
+    case_timeout = 30
     rule = ("cases = random clock configurations x populations x modifier scripts x listener action schedules, driven "
             "by run() / step() / take_steps(); distinct by case hash; non-trivial = at least two events with different "
             "index sets or a global step different from the minimum step")
@@ -479,7 +485,6 @@ class C10(Prop):
             if not isinstance(before["now"], int) or before["now"] >= stop:
                 break                                  # events after the end of the simulation are not constrained
             pending = set()
-            cur = {i: (nxt, stp) for i, nxt, stp in before["sims"]}
             for p, e in enumerate(evs):
                 nets = e["net"]
                 ids = list(range(len(nets)))
@@ -506,9 +511,6 @@ class C10(Prop):
                 for a in e["acts"]:
                     if a[0] == "mte":
                         pending |= set(a[1])
-                    else:
-                        for i in a[1]:
-                            cur[i] = (e["time"], e["step"])   # a newborn is due at the event in progress (checked below via net)
             if len(evs) < 4:
                 break
             if k - 1 >= len(states):
